@@ -95,6 +95,12 @@ func execDirectFunction(vm *r.VM, funcName *r.IDName, params []r.Element) (r.Ele
 	if err != nil {
 		return nil, err
 	}
+	// a name that does not hold a method cannot be called: say so BEFORE a call frame is made
+	// for it (the frame would stay behind; and the name may be bound where no module exists at
+	// all, e.g. by 得到 in an input-variable text, so that there is nothing to make a frame of)
+	if _, isFn := elem.(*value.Function); !isFn || module == nil {
+		return nil, zerr.InvalidFuncVariable(funcName.GetLiteral())
+	}
 	// pushCallFrame
 	fnCallFrame := r.NewFunctionCallFrame(module, nil)
 	vm.PushCallFrame(fnCallFrame)
